@@ -111,4 +111,65 @@ def deriveIdentity {Ident : Type} (arm : StartArm) (p : Presented Ident) : Deriv
 def armFor (disableHttps listener : Bool) : Option StartArm :=
   IpaVerif.Generated.Routes.startOnArms.find? (fun a => a.disableHttps == disableHttps && a.listener == listener)
 
+/-! ## A live connection to a server started by `start_on` (suite `c20_live`) -/
+
+/-- What the client does on the wire. `Ident` is the identity type of the server's flavor. -/
+inductive ClientCert (Ident : Type) where
+  | none                 -- no client certificate (always the case without TLS)
+  | peer (id : Ident)    -- the certificate configured for peer `id` in the server's `NetworkConfig`
+  | stranger             -- a valid certificate that is not configured for any peer
+  deriving DecidableEq, Repr
+
+structure Client (Ident : Type) where
+  /-- the client speaks TLS (https) / plain HTTP -/
+  tls : Bool
+  cert : ClientCert Ident
+  /-- the identity header *of the server's flavor*: absent / unparsable / parsable (a header of the
+  other flavor has another name and is never read) -/
+  header : Option (Option Ident)
+
+inductive LiveResp where
+  | connErr           -- no HTTP response: protocol mismatch, or rustls refused the certificate
+  | rejected          -- `SetClientIdentityFromHeader` answered itself (`Error::InvalidHeader`, 400)
+  | resp (r : Resp)
+  deriving DecidableEq, Repr
+
+def ClientCert.identity {Ident : Type} : ClientCert Ident → Option Ident
+  | .peer id => some id
+  | _ => Option.none
+
+/-- The rustls handshake (trusted library, behaviour per its documentation): what certificate
+identity the server ends up with, or `none` if the handshake is aborted.
+* verifier not installed: no certificate is requested, whatever the client holds is not sent;
+* client without certificate: accepted iff client authentication is optional;
+* certificate outside the trust anchors: handshake aborted (with anchors ≠ the peers' certificates
+  the model makes no claim and treats it the same way). -/
+def handshake {Ident : Type} (setup : TlsSetup) (cert : ClientCert Ident) : Option (Option Ident) :=
+  if !setup.verifierInstalled then some Option.none
+  else match cert with
+    | .none => if setup.clientAuthOptional then some Option.none else Option.none
+    | .stranger => Option.none
+    | .peer id => some (some id)
+
+/-- One request over a fresh connection to a server of flavor `f` with route table `routes`,
+started through the arm `arm` of `start_on` with the TLS setup `setup`. -/
+def serveWith {Ident : Type} (setup : TlsSetup) (f : Flavor) (routes : List Entry) (arm : StartArm)
+    (c : Client Ident) (path : List String) (m : Method) : LiveResp :=
+  if c.tls != arm.tlsAcceptor then .connErr
+  else
+    match (if arm.tlsAcceptor then handshake setup c.cert else some Option.none) with
+    | Option.none => .connErr
+    | some certId =>
+      match deriveIdentity arm { cert := certId, header := c.header } with
+      | .rejected => .rejected
+      | .ext id =>
+        .resp (respond routes { path := path, method := m,
+                                helperId := (f == .helper) && id.isSome,
+                                shardId := (f == .shard) && id.isSome })
+
+/-- … with the regenerated `rustls_config` setup. -/
+def serve {Ident : Type} (f : Flavor) (routes : List Entry) (arm : StartArm) (c : Client Ident)
+    (path : List String) (m : Method) : LiveResp :=
+  serveWith IpaVerif.Generated.Routes.tlsSetup f routes arm c path m
+
 end IpaVerif.Auth
